@@ -35,10 +35,22 @@ structure WProblem where
 def writeBlock (head : List Str) (cs : List WCard) : List Str :=
   head ++ (cs.map WCard.lines).flatten ++ [[]]
 
-/-- `MCNP_Problem.write_to_file`: the sequence of lines written -/
+/-- `MCNP_Problem.write_to_file`: the sequence of lines written, given the lines as they go to the file -/
 def writeLines (p : WProblem) : List Str :=
   (if p.message.isEmpty then [] else p.message ++ [[]]) ++ [p.title] ++
     (writeBlock p.cellsHead p.cells ++ writeBlock p.surfHead p.surfaces ++ writeBlock p.dataHead p.data)
+
+/-- the writer drops trailing blanks of every line (`fh.write(line.rstrip() + "\n")`, repaired code) -/
+def WCard.strip (c : WCard) : WCard := ⟨rstrip c.first, c.rest.map rstrip⟩
+
+def WProblem.strip (p : WProblem) : WProblem :=
+  { message := p.message.map rstrip, title := rstrip p.title,
+    cellsHead := p.cellsHead.map rstrip, cells := p.cells.map WCard.strip,
+    surfHead := p.surfHead.map rstrip, surfaces := p.surfaces.map WCard.strip,
+    dataHead := p.dataHead.map rstrip, data := p.data.map WCard.strip }
+
+/-- what `write_to_file` writes for the lines the objects format to -/
+def writeFile (p : WProblem) : List Str := writeLines p.strip
 
 end MontePyVerif.FileWrite
 
